@@ -144,6 +144,8 @@ def opts_for(dev, call):
     kind, val = dev
     i = call['i']
     if kind == 'fail':
+        if call['name'] == 'close':
+            return ['--failafter', '%d:%d' % (i, val)]     # Linux releases the descriptor even when close() reports an error
         return ['--fail', '%d:%d' % (i, val)]
     if kind == 'retzero':
         return ['--retzero', str(i)]
